@@ -16,7 +16,9 @@ from . import common
 PROP = "C11"
 IPC = "aiohomekit.controller.ip.connection"
 OUTCOMES = ["ok", "InvalidSignatureError", "InvalidAuthTagError", "IncorrectPairingIdError", "AuthenticationError", "InvalidError",
+            "TlvParseException", "ValueError", "CancelledError",
             "peer-close-at-M1", "peer-close-at-M3", "http-470-at-M1", "http-400-at-M3"]
+HOSTS = [["10.0.0.1"], ["accessory.local"]]  # an advertised literal address, or a name that resolves to it
 
 
 def copies(mutate=None):
@@ -226,10 +228,15 @@ def new_conn(M, env):
     return c
 
 
-def attempt(M, env, conn, out):
-    """one connection attempt whose secure set-up ends the given way"""
+def attempt(M, env, conn, out, late_loss=False):
+    """one connection attempt whose secure set-up ends the given way; late_loss: while this attempt is between M1 and M2 the
+    event loop reports the loss of every connection the controller closed earlier"""
     def script(tr, data):
         tr.n += 1
+        if late_loss and tr.n == 1:
+            for old in list(env.net.all):
+                if old is not tr:
+                    old.deliver_lost()
         if (out == "peer-close-at-M1" and tr.n == 1) or (out == "peer-close-at-M3" and tr.n == 2):
             tr.peer_close()
             return
@@ -248,6 +255,13 @@ def attempt(M, env, conn, out):
         resp = yield ([(6, b"\x01")], [6, 7])
         if out in ("InvalidSignatureError", "InvalidAuthTagError", "IncorrectPairingIdError", "AuthenticationError", "InvalidError"):
             raise getattr(X, out)("step 3")
+        if out == "TlvParseException":
+            from aiohomekit.protocol.tlv import TlvParseException
+            raise TlvParseException("Not enough data")
+        if out == "ValueError":
+            raise ValueError("An X25519 public key is 32 bytes long")
+        if out == "CancelledError":
+            raise asyncio.CancelledError()
         resp = yield ([(6, b"\x03")], [6, 7])
         return b"sid", (lambda salt, info, length=32: b"K" * 32)
 
@@ -258,16 +272,21 @@ def attempt(M, env, conn, out):
 def history_unit(M, K):
     def h(ex):
         outs = [ex.choice("outcome%d" % i, OUTCOMES) for i in range(K)]
+        hosts = ex.choice("hosts", HOSTS)
+        late = ex.choice("late_loss_during_attempt", ["none"] + list(range(1, K)))
         stale = ex.choice("peer_closes_connection", ["none"] + list(range(K)))
         do_close = ex.fresh_bool("close")
         connector = ex.choice("connector", ["none", "running", "finished-ok", "finished-auth-error", "finished-connection-error"])
         net = Net()
         with Env(M, net) as env:
             conn = new_conn(M, env)
+            conn.hosts = list(hosts)
             made = []
             for i in range(K):
                 before = len(net.all)
-                r = attempt(M, env, conn, outs[i])
+                r = attempt(M, env, conn, outs[i], late_loss=(late == i))
+                if late == i:
+                    ex.tag("late-loss-mid-verify")
                 ex.require(r[0] != "SUSPENDED", "(harness) set-up runs to completion")
                 new = net.all[before:]
                 made.append(new[0] if new else None)
@@ -309,8 +328,8 @@ def build(tier, mutate=None):
     R = real_ipc
     K = 2 if tier in ("quick", "canary") else 3
     return [Unit("history/K=%d" % K, history_unit(C, K), history_unit(R, K), split=True,
-                 bounds={"attempts": K, "set-up outcomes": OUTCOMES, "peer closes / late connection_lost": "none or any connection made so far", "close()": "with connector none / running / finished (ok, auth error, connection error)"},
-                 regions=["failed-setup", "stale-close", "close"], diff_sample=200)]
+                 bounds={"attempts": K, "set-up outcomes": OUTCOMES, "hosts": HOSTS, "late connection_lost between M1 and M2 of a later attempt": "none or any attempt", "peer closes / late connection_lost": "none or any connection made so far", "close()": "with connector none / running / finished (ok, auth error, connection error)"},
+                 regions=["failed-setup", "stale-close", "close", "late-loss-mid-verify"], diff_sample=300)]
 
 
 CANARIES = [
